@@ -3,20 +3,32 @@ PROP = Prop(
     "C13", harness="sim", quick=["--mode", "cls"], thorough=["--mode", "cls"], harness_kind="test", tags="verif synctests", driver="C13",
     models=[("pkg/kgo/client.go", ["Client.Close", "Client.close", "Client.CloseAllowingRebalance"])],
     rule="scenario = a client that produces (2 goroutines), consumes in a group next to a second member (with or without BlockRebalanceOnPoll, then CloseAllowingRebalance), does both, or runs "
-         "transactions, closed 0-1500 ms (virtual) after start with brokers responsive, slow (every request delayed 100-1000 ms) or unreachable (all connections cut, dials refused); after Close a "
-         "poll is issued and everything is given 5 s of virtual time; history = produce calls and promises, Close start and its virtual duration, the poll result; a client goroutine still blocked at "
-         "the end makes the synctest bubble panic and is reported as the scenario outcome; non-trivial = promises were outstanding when Close began, or the client only consumes",
-    trusted_base=["history monitor Model.Close", "testing/synctest (virtual time; refuses to end a bubble with blocked goroutines)", "harness/sim", "Lean compiler/runtime for the driver"],
+         "transactions, closed 0-1500 ms (virtual) after start with brokers responsive, slow (every request delayed 100-1000 ms) or unreachable (all connections cut, dials refused); one scenario in "
+         "three is a slot scenario: a consumer (direct on a topic, direct on listed partitions, or in a group next to a member that joins and leaves repeatedly) with MaxConcurrentFetches 1-3 on 3-8 "
+         "brokers that each lead one or two partitions of the topic (more fetch sources than slots), records flowing on every partition; right behind polls (after 0-4 Gosched calls or a counted busy "
+         "loop of up to tens of microseconds of real time, so that it lands while a freed slot is handed to a waiting source) the session is stopped 0-16 times by SetOffsets, "
+         "RemoveConsumePartitions+AddConsumePartitions or reshaped by pause/resume, and finally by Close, called by the poller right behind its poll or concurrently with it; after Close a "
+         "poll is issued, every other client of the scenario is closed, everything is given 5 s of virtual time and the goroutines of the bubble that still have a pkg/kgo frame are counted (event L, "
+         "with state, function, file#line and creator of each); history = produce calls and promises, Close start and its virtual duration, the poll result, the count; a client goroutine still "
+         "blocked at the end also makes the synctest bubble panic and is reported as the scenario outcome, with the history (and its L event) as tail; both map to the key "
+         "C13.goroutines-remain-after-close; non-trivial = promises were outstanding when Close began, or the client only consumes",
+    trusted_base=["history monitor Model.Close", "testing/synctest (virtual time; refuses to end a bubble with blocked goroutines)", "runtime.Stack (goroutine dump with bubble labels, read by harness/sim/leftover.go)", "harness/sim", "Lean compiler/runtime for the driver"],
     assumptions=["Close must return within 60 s of virtual time (observed maximum on the unchanged tree about 9 s)", "no produce call begins after Close has begun"],
     partial="The wall-clock bound of Close and the absence of leftover goroutines are runtime behaviour: they are observed inside synctest bubbles (virtual time, blocked-goroutine detection) and enter "
-            "the monitor as events; they are not theorems about the code. Share-group and mid-transaction End placements are exercised by the share/txn scenarios, not here.",
+            "the monitor as events; they are not theorems about the code. Races that need a session stop inside a window of a few microseconds of real time (e.g. between the fetch-concurrency "
+            "manager granting a slot and the woken source looking at its session) are sampled, not enumerated: the scenarios put Close and other session stops right behind polls many times per "
+            "run, the schedule itself is the Go scheduler's. Leader moves are not used as session stops (a fetch answered NOT_LEADER with the new leader attached is re-issued without back-off "
+            "until the metadata loop runs the move; against kfake that loop never lets the virtual clock advance). Share-group and mid-transaction End placements are exercised by the share/txn "
+            "scenarios, not here.",
     run_timeout={"quick": 900, "thorough": 3400},
 )
 MANIFEST = {
-    "text": "Partial. Verified monitor: Lean theorems over ALL accepted Close histories: Close returned within the bound whenever it returned, no goroutine leak was observed, promises only for "
-            "produced records and never twice, and at quiescence Close has returned, every produce promise was called and a poll after Close reported ErrClientClosed. Tie: history correspondence with "
-            "real kgo clients (producer, group consumer, both, transactional) x kfake closed at arbitrary moments with responsive, slow or unreachable brokers.",
-    "note": "Trusted: Lean kernel; monitor vocabulary; harness; testing/synctest's virtual clock and its blocked-goroutine detection are what observe 'bounded time' and 'nothing left running' - "
-            "runtime behaviour a theorem cannot exhibit. Real-time Close latency is not measured.",
+    "text": "Partial. Verified monitor: Lean theorems over ALL accepted Close histories: Close returned within the bound whenever it returned, no goroutine leak was observed and every count of client goroutines "
+            "taken after Close was zero, promises only for produced records and never twice, and at quiescence Close has returned, every produce promise was called, a poll after Close reported "
+            "ErrClientClosed and the goroutines were counted (none left). Tie: history correspondence with real kgo clients (producer, group consumer, both, transactional, and direct/group consumers "
+            "with bounded fetch concurrency on 3-8 brokers whose session is stopped right behind polls) x kfake closed at arbitrary moments with responsive, slow or unreachable brokers.",
+    "note": "Trusted: Lean kernel; monitor vocabulary; harness; testing/synctest's virtual clock, its blocked-goroutine detection and the runtime's goroutine dump are what observe 'bounded time' and "
+            "'nothing left running' - runtime behaviour a theorem cannot exhibit. Real-time Close latency is not measured. Microsecond-wide races are sampled under the real Go scheduler (hit rates "
+            "depend on machine load), not explored exhaustively.",
     "technique": "Lean 4 proof over a history monitor with history correspondence against kgo x kfake in synctest bubbles (partial: runtime residue observed, not proved)",
 }
